@@ -306,3 +306,61 @@ Proof. exact C17_rtc_from_api_preserves_wf. Qed.
 Check rtc_from_api_preserves_wf :
   forall (a : N) (rt : option api_rt) (n : rtc), u32_ok a -> rtc_from_api (ARtc a rt) = Some n -> wf_rtc n.
 Print Assumptions rtc_from_api_preserves_wf.
+
+(* (23) attr_from_api on a typed PrefixSid or TunnelEncap message always returns: the model has no
+   panicking path for any message (missing oneofs, SIDs of any length, fields of any size, any
+   number of TLVs); the answer is an attribute or a refusal. *)
+Theorem typed_from_api_total :
+  (forall x, exists r, from_api_psid x = Ok r) /\ (forall x, exists r, from_api_te x = Ok r).
+Proof. exact C17_typed_from_api_total. Qed.
+Check typed_from_api_total :
+  (forall x, exists r, from_api_psid x = Ok r) /\ (forall x, exists r, from_api_te x = Ok r).
+Print Assumptions typed_from_api_total.
+
+(* (24) An accepted PrefixSid message is stored as the encoding of a TLV tree whose fields are all
+   within their wire widths (16-octet SIDs, 16-bit behaviour, one-octet structure lengths), in which
+   no TLV / sub-TLV length field has wrapped, and whose value fits the attribute length. *)
+Theorem prefix_sid_accepted_wf :
+  forall x a, api_psid_in_range x -> from_api_psid x = Ok (Some a) ->
+    exists p, psid_from_api x = Some p /\ a = mkAttr PREFIX_SID 192 (DBin (psid_encode p)) /\
+              wf_psid p /\ ps_fits p /\ len_ok (psid_encode p).
+Proof. exact C17_prefix_sid_accepted_wf. Qed.
+Check prefix_sid_accepted_wf :
+  forall x a, api_psid_in_range x -> from_api_psid x = Ok (Some a) ->
+    exists p, psid_from_api x = Some p /\ a = mkAttr PREFIX_SID 192 (DBin (psid_encode p)) /\
+              wf_psid p /\ ps_fits p /\ len_ok (psid_encode p).
+Print Assumptions prefix_sid_accepted_wf.
+
+(* (25) The typed listing of a well-formed PREFIX_SID tree is accepted again as the same tree. *)
+Theorem prefix_sid_roundtrip :
+  forall p, wf_psid p -> psid_from_api (psid_to_api p) = Some p.
+Proof. exact C17_prefix_sid_roundtrip. Qed.
+Check prefix_sid_roundtrip :
+  forall p, wf_psid p -> psid_from_api (psid_to_api p) = Some p.
+Print Assumptions prefix_sid_roundtrip.
+
+(* (26) An accepted TunnelEncap message is stored as the encoding of tunnel TLVs whose fields are
+   all within their wire widths (16-bit tunnel type, one-octet flags / ENLP / priority / structure
+   lengths, 20-bit labels, 16-octet SIDs, UTF-8 policy name, each one-per-path sub-TLV once), in
+   which no one- or two-octet length field has wrapped, and whose value fits the attribute length. *)
+Theorem tunnel_encap_accepted_wf :
+  forall x a, api_te_in_range x -> from_api_te x = Ok (Some a) ->
+    exists l, te_from_api x = Some l /\ a = mkAttr TUNNEL_ENCAP 192 (DBin (te_encode l)) /\
+              wf_te l /\ te_fits l /\ len_ok (te_encode l).
+Proof. exact C17_tunnel_encap_accepted_wf. Qed.
+Check tunnel_encap_accepted_wf :
+  forall x a, api_te_in_range x -> from_api_te x = Ok (Some a) ->
+    exists l, te_from_api x = Some l /\ a = mkAttr TUNNEL_ENCAP 192 (DBin (te_encode l)) /\
+              wf_te l /\ te_fits l /\ len_ok (te_encode l).
+Print Assumptions tunnel_encap_accepted_wf.
+
+(* (27) The typed listing of well-formed tunnel TLVs that the typed message can carry (te_listable:
+   only flag bits the message has fields for, a type B behaviour structure under flag 0x40, no raw
+   value of another tunnel type) is accepted again as the same TLVs.  Outside te_listable attr_to_api
+   lists the raw value (theorem 15 covers that wrapper). *)
+Theorem tunnel_encap_roundtrip :
+  forall l, wf_te l -> te_listable l -> te_from_api (te_to_api l) = Some l.
+Proof. exact C17_tunnel_encap_roundtrip. Qed.
+Check tunnel_encap_roundtrip :
+  forall l, wf_te l -> te_listable l -> te_from_api (te_to_api l) = Some l.
+Print Assumptions tunnel_encap_roundtrip.
